@@ -206,6 +206,18 @@ func jobsFor(prop, tier string) ([]job, string) {
 				jobs = append(jobs, job{"T(" + p.String() + " TRUE SCALE)", vsched.Config{Bound: 1, TickBudget: 1, MaxExec: max, Deadline: dl, Body: c18Body(p), Check: c18Check}})
 			}
 		}
+		{
+			// true scale, no bulk operation: one tick over 300 sessions whose Session Report Requests the peer never
+			// answers (300 outstanding requests, far more reports than the report queue holds) and a heartbeat:
+			// thresholds tied to the source's own constants (queue sizes, numbers of requests in flight) are only
+			// crossed here
+			max := 10
+			if tier == "thorough" {
+				max = 400
+			}
+			p := c18Params{N: 300, U: 1, Bulk: "none", Ticks: 1, HB: true}
+			jobs = append(jobs, job{"T(" + p.String() + " TRUE SCALE, unanswered reports)", vsched.Config{Bound: 1, TickBudget: 1, MaxExec: max, Deadline: dl, Body: c18Body(p), Check: c18Check}})
+		}
 		for _, sc := range c18Scenarios(tier) {
 			jobs = append(jobs, job{"S(" + sc.P.String() + ")", vsched.Config{Bound: sc.Bound, TickBudget: sc.P.Ticks, MaxExec: sc.Max, Deadline: dl, StateKeys: true,
 				Body: c18Body(sc.P), Check: c18Check}})
